@@ -97,6 +97,9 @@ def check_mul(ctx, dom, cfp, obj, P, k, cls, key, even, tag, deep=False):
               dict(curve=cv.key(), P=P, k=k, expected=E, path=cls), points.repro_head(dom) + points.show("%s * %d" % (s, k)))
 
 
+_PJ = {"i": 0}
+
+
 def check_muladd(ctx, dom, cfp, A, P, a, B, Q, b, cls, key, even, tag):
     cv, p = dom.curve, dom.curve.p
     E = cv.add(cv.mul(a, P), cv.mul(b, Q))
@@ -259,12 +262,26 @@ def run(ctx, name, kind, **kw):
         pairs = [(rng.randrange(1, n), rng.randrange(1, n)) for _ in range(max(3, kw["nrand"] // 2))]
         pairs += [(0, 5), (5, 0), (0, 0), (1, 1), (n - 1, n - 1), (n, 3), (3, n), (n + 1, 2 * n + 1), (-1, 1), (7, -7), (n - 1, 1), (1, n - 1)]
         pairs += [(3, 6 * n + 1), (5, -(7 * n + 5)), (2, 23 * n + 11), (n + 2, 127 * n + 3), (9 * n + 4, 3), (-(31 * n + 1), -(31 * n + 2))]      # multipliers far outside [0, n) on either side
+        pairs += [(n + 1, 1), (1, n + 1), (-1, -1), (n + 1, n + 1), (-3, 5), (5, -3), (-4, 1), (-7, -9), (2 * n - 1, 1)]
         for a, b in pairs[kw["si"]:: kw["sl"]]:
             cfp2 = lib.CurveFp(int(cfp.p()), int(cfp.a()), int(cfp.b()), None)      # equal curve (same p, a, b as declared), separate object, no cofactor declared
             a_specs = (("G", lambda: c.generator, G), ("plain", lambda: build(cfp, Pm, "jzr", rng, order=n), Pm), ("noorder", lambda: build(cfp, Pm, "j1", rng, order=None), Pm),
                        ("noorder_scaled", lambda: build(cfp, Pm, "jzr", rng, order=None), Pm),
                        ("identity_z0", lambda: PointJacobi(cfp, rng.randrange(1, p), rng.randrange(1, p), 0, n), None), ("identity_z0_noorder", lambda: PointJacobi(cfp, 1, 1, 0), None))
-            for (an, mkA, PA) in a_specs:
+            _PJ["i"] += 1
+            if _PJ["i"] % 2 == 0:
+                # ONE first-operand object used for consecutive calls with second operands that are related to each other (Q; -Q written
+                # as (x : y : p-1), whose raw X, Y are Q's affine ones; Q rescaled; Q again): whatever the object remembers from one call
+                # must not reach the next
+                for (an, mkA, PA) in (a_specs[1], a_specs[2], a_specs[0]):
+                    A_re = mkA()
+                    for bn, B_, QB_ in (("q", PointJacobi(cfp, Q[0], Q[1], 1, n), Q), ("negq_as_z_minus_1", PointJacobi(cfp, Q[0], Q[1], p - 1, n), cv.neg(Q)),
+                                        ("q_scaled", build(cfp, Q, "jzr", rng, order=n), Q), ("negq", build(cfp, cv.neg(Q), "j1", rng, order=n), cv.neg(Q)),
+                                        ("q_as_minus_y_z_minus_1", PointJacobi(cfp, Q[0], (-Q[1]) % p, p - 1, n), Q), ("q_again", PointJacobi(cfp, Q[0], Q[1], 1, n), Q)):
+                        check_muladd(ctx, dom, cfp, A_re, PA, a, B_, QB_, b, "prod.muladd", "%s|%s|reused|%s|%s" % (fam, an, bn, "z" if a % n == 0 or b % n == 0 else "nz"), False, fam)
+            for ai, (an, mkA, PA) in enumerate(a_specs):
+                if (ai + _PJ["i"]) % 3 and an not in ("G",):
+                    continue          # every multiplier pair meets the generator and a rotating third of the other first-operand kinds
                 b_specs = (("plain", lambda: build(cfp, Q, "j1", rng, order=n), Q), ("scaled", lambda: build(cfp, Q, "jzr", rng, order=n), Q),
                            ("other_curve_object", lambda: build(cfp2, Q, "jzr", rng, order=n), Q),
                            ("other_curve_object_table", lambda: PointJacobi(cfp2, Q[0], Q[1], 1, n, generator=True), Q),
@@ -272,7 +289,25 @@ def run(ctx, name, kind, **kw):
                            ("legacy", lambda: Point(cfp, Q[0], Q[1], n), Q), ("same", lambda: build(cfp, PA, "jz2", rng, order=n) if PA is not None else PointJacobi(cfp, 2, 7, 0, n), PA),
                            ("opposite", lambda: build(cfp, cv.neg(PA), "jzr", rng, order=n) if PA is not None else PointJacobi(cfp, 9, 9, 0), cv.neg(PA)),
                            ("inf", lambda: INFINITY, None), ("inf_copy", lambda: Point(None, None, None), None), ("table", lambda: vk.pubkey.point, Pm),
-                           ("table_scaled_fresh", lambda: lib.mk_jac(cfp, Q, rng.randrange(2, p), n, True), Q))
+                           ("table_scaled_fresh", lambda: lib.mk_jac(cfp, Q, rng.randrange(2, p), n, True), Q),
+                           # the same point as self / another point, with X or Y handed over unreduced next to Z = 1 (arithmetic takes these on the pinned tree)
+                           ("same_unreduced_x", lambda: PointJacobi(cfp, PA[0] + p, PA[1], 1, n) if PA is not None else PointJacobi(cfp, 2, 7, 0, n), PA),
+                           ("same_unreduced_y", lambda: PointJacobi(cfp, PA[0], PA[1] - p, 1, n) if PA is not None else PointJacobi(cfp, 2, 7, 0, n), PA),
+                           ("unreduced_xy", lambda: PointJacobi(cfp, Q[0] + 2 * p, Q[1] + p, 1, n), Q))
                 for (bn, mkB, QB) in b_specs:
+                    if "unreduced" in bn:
+                        # unreduced X / Y next to Z = 1 are outside the input domain of the reading functions (x(), y() hand them back as
+                        # they are on the pinned tree); the ARITHMETIC takes them, so the sum is judged modulo p and nothing else is asked
+                        A_, B_ = mkA(), mkB()
+                        E_ = cv.add(cv.mul(a, PA), cv.mul(b, QB))
+                        ctx.case("prod.muladd", key="%s|%s|%s|%s" % (fam, an, bn, "z" if a % n == 0 or b % n == 0 else "nz"))
+                        try:
+                            R_ = A_.mul_add(a, B_, b)
+                            got_ = None if R_ is INFINITY or (isinstance(R_, PointJacobi) and (R_ == INFINITY) is True) else (R_.x() % p, R_.y() % p)
+                        except Exception as ex:
+                            got_ = "raised %s: %s" % (type(ex).__name__, ex)
+                        if got_ != E_:
+                            _fail(ctx, "muladd_wrong:prod.muladd", False, "%s: %s.mul_add(%d, %s, %d) = %r, expected %r" % (fam, points.src(A_), a, points.src(B_), b, got_, E_), dict(curve=cv.key(), a=a, b=b), None)
+                        continue
                     # both operands built afresh for every call: an earlier call leaves its operands rescaled
                     check_muladd(ctx, dom, cfp, mkA(), PA, a, mkB(), QB, b, "prod.muladd", "%s|%s|%s|%s" % (fam, an, bn, "z" if a % n == 0 or b % n == 0 else "nz"), False, fam)
